@@ -3,7 +3,7 @@
 manifest is always valid). Run: python3 tools_gen_manifest.py"""
 import json, subprocess
 
-HOOK_COMMITS = ["1a17178", "065bd4b"]
+HOOK_COMMITS = ["1a17178", "065bd4b", "64a12d1"]
 
 # id -> (category, engine, technique, text, note)
 CHECKS = {
